@@ -2,6 +2,7 @@
 //! goes through gdsl's public API only.
 
 use crate::model::{Closure, SKind, SMode, SearchSpec};
+use crate::keys::{kin, kout};
 use crate::payload::{EVal, NVal};
 use std::io::{Read, Write};
 
@@ -246,10 +247,10 @@ pub fn dot_e(spec: DotSpec, u: usize, v: usize, e: u64) -> Option<Vec<(String, S
 macro_rules! common_node_items {
     ($m:ident) => {
         fn node_new(k: usize, v: NVal) -> Self::Node {
-            gdsl::$m::Node::new(k, v)
+            gdsl::$m::Node::new(kin(k), v)
         }
         fn key(n: &Self::Node) -> usize {
-            *n.key()
+            kout(*n.key())
         }
         fn prio(n: &Self::Node) -> u32 {
             n.value().prio
@@ -276,7 +277,7 @@ macro_rules! common_node_items {
             u.try_connect(v, e).map_err(gerr)
         }
         fn disconnect(u: &Self::Node, k: usize) -> Result<EVal, GErr> {
-            u.disconnect(&k).map_err(gerr)
+            u.disconnect(&kin(k)).map_err(gerr)
         }
         fn isolate(u: &Self::Node) {
             u.isolate()
@@ -285,7 +286,7 @@ macro_rules! common_node_items {
             u.is_orphan()
         }
         fn is_connected(u: &Self::Node, k: usize) -> bool {
-            u.is_connected(&k)
+            u.is_connected(&kin(k))
         }
         fn sizeof(u: &Self::Node) -> usize {
             u.sizeof()
@@ -310,7 +311,7 @@ macro_rules! common_node_items {
             let es: Vec<gdsl::$m::Edge<usize, NVal, EVal>> =
                 v.iter().map(|a| gdsl::$m::Edge(a.0.clone(), a.1.clone(), a.2.clone())).collect();
             match (&&crate::flavour::OrdProbe(&es[..])).order_report().1 {
-                Some(idx) => idx.iter().map(|i| (*es[*i].0.key(), *es[*i].1.key(), (es[*i].2).0)).collect(),
+                Some(idx) => idx.iter().map(|i| (kout(*es[*i].0.key()), kout(*es[*i].1.key()), (es[*i].2).0)).collect(),
                 None => Vec::new(),
             }
         }
@@ -318,7 +319,7 @@ macro_rules! common_node_items {
             let e = gdsl::$m::Edge(a.0.clone(), a.1.clone(), a.2.clone());
             assert!(e.source().key() == a.0.key() && e.target().key() == a.1.key() && e.value().0 == (a.2).0);
             let r = e.reverse();
-            (*r.0.key(), *r.1.key(), (r.2).0)
+            (kout(*r.0.key()), kout(*r.1.key()), (r.2).0)
         }
     };
 }
@@ -332,16 +333,16 @@ macro_rules! common_graph_items {
             g.insert(n)
         }
         fn g_remove(g: &mut Self::Graph, k: usize) -> Option<Self::Node> {
-            g.remove(&k)
+            g.remove(&kin(k))
         }
         fn g_get(g: &Self::Graph, k: usize) -> Option<Self::Node> {
-            g.get(&k)
+            g.get(&kin(k))
         }
         fn g_index(g: &Self::Graph, k: usize) -> Self::Node {
-            g[k].clone()
+            g[kin(k)].clone()
         }
         fn g_contains(g: &Self::Graph, k: usize) -> bool {
-            g.contains(&k)
+            g.contains(&kin(k))
         }
         fn g_len(g: &Self::Graph) -> usize {
             g.len()
@@ -353,7 +354,7 @@ macro_rules! common_graph_items {
             g.to_vec()
         }
         fn g_iter(g: &Self::Graph) -> Vec<(usize, Self::Node)> {
-            g.iter().map(|(k, n)| (*k, n.clone())).collect()
+            g.iter().map(|(k, n)| (kout(*k), n.clone())).collect()
         }
         fn g_orphans(g: &Self::Graph) -> Vec<Self::Node> {
             g.orphans()
@@ -480,8 +481,8 @@ macro_rules! dot_attr_impl {
         fn g_to_dot_attr(g: &Self::Graph, spec: DotSpec) -> Option<String> {
             Some(g.to_dot_with_attr(
                 &|_| dot_g(spec),
-                &|n| dot_n(spec, *n.key(), n.value().prio),
-                &|u, v, e| dot_e(spec, *u.key(), *v.key(), e.0),
+                &|n| dot_n(spec, kout(*n.key()), n.value().prio),
+                &|u, v, e| dot_e(spec, kout(*u.key()), kout(*v.key()), e.0),
             ))
         }
         fn g_to_dot_cb(g: &Self::Graph, ncb: &dyn Fn(&Self::Node), ecb: &dyn Fn(&Self::Node, &Self::Node, &EVal)) -> Option<String> {
@@ -563,15 +564,15 @@ macro_rules! describe_path {
     ($p:expr) => {{
         let p = $p;
         let edge = |a: usize, b: usize, e: u64| format!("({a},{b},{e})");
-        let nodes: Vec<usize> = p.iter_nodes().map(|n| *n.key()).collect();
-        let edges: Vec<String> = p.iter_edges().map(|e| edge(*e.0.key(), *e.1.key(), (e.2).0)).collect();
-        let tv_nodes: Vec<usize> = p.to_vec_nodes().iter().map(|n| *n.key()).collect();
-        let tv_edges: Vec<String> = p.to_vec_edges().iter().map(|e| edge(*e.0.key(), *e.1.key(), (e.2).0)).collect();
-        let fe = p.first_edge().map(|e| edge(*e.0.key(), *e.1.key(), (e.2).0));
-        let le = p.last_edge().map(|e| edge(*e.0.key(), *e.1.key(), (e.2).0));
-        let fnode = p.first_node().map(|n| *n.key());
-        let lnode = p.last_node().map(|n| *n.key());
-        let idx0 = if p.len() > 1 { Some(edge(*p[0].0.key(), *p[0].1.key(), (p[0].2).0)) } else { None };
+        let nodes: Vec<usize> = p.iter_nodes().map(|n| kout(*n.key())).collect();
+        let edges: Vec<String> = p.iter_edges().map(|e| edge(kout(*e.0.key()), kout(*e.1.key()), (e.2).0)).collect();
+        let tv_nodes: Vec<usize> = p.to_vec_nodes().iter().map(|n| kout(*n.key())).collect();
+        let tv_edges: Vec<String> = p.to_vec_edges().iter().map(|e| edge(kout(*e.0.key()), kout(*e.1.key()), (e.2).0)).collect();
+        let fe = p.first_edge().map(|e| edge(kout(*e.0.key()), kout(*e.1.key()), (e.2).0));
+        let le = p.last_edge().map(|e| edge(kout(*e.0.key()), kout(*e.1.key()), (e.2).0));
+        let fnode = p.first_node().map(|n| kout(*n.key()));
+        let lnode = p.last_node().map(|n| kout(*n.key()));
+        let idx0 = if p.len() > 1 { Some(edge(kout(*p[0].0.key()), kout(*p[0].1.key()), (p[0].2).0)) } else { None };
         format!(
             "len={} nodes={nodes:?} edges={edges:?} to_vec_nodes={tv_nodes:?} to_vec_edges={tv_edges:?} first_edge={fe:?} last_edge={le:?} first_node={fnode:?} last_node={lnode:?} [0]={idx0:?}",
             p.len()
@@ -634,7 +635,7 @@ macro_rules! directed_flavour {
             }
 
             pub fn go<'a>(root: &'a N, spec: &SearchSpec, meth: Meth<'a, E>) -> SearchOut<N> {
-                let tk: Option<usize> = spec.target;
+                let tk: Option<usize> = spec.target.map(kin);
                 match spec.kind {
                     SKind::Bfs => three!(root.bfs(), spec, tk, meth),
                     SKind::Dfs => three!(root.dfs(), spec, tk, meth),
@@ -686,10 +687,10 @@ macro_rules! directed_flavour {
                 u.is_leaf()
             }
             fn find_out(u: &Self::Node, k: usize) -> Option<Self::Node> {
-                u.find_outbound(&k)
+                u.find_outbound(&kin(k))
             }
             fn find_in(u: &Self::Node, k: usize) -> Option<Self::Node> {
-                u.find_inbound(&k)
+                u.find_inbound(&kin(k))
             }
             fn for_out(u: &Self::Node, f: Step<Self::Node>) {
                 for gdsl::$m::Edge(a, b, e) in u.iter_out() {
@@ -798,7 +799,7 @@ macro_rules! directed_flavour {
             }
 
             fn path_info(root: &Self::Node, spec: &SearchSpec) -> Option<String> {
-                let tk: Option<usize> = spec.target;
+                let tk: Option<usize> = spec.target.map(kin);
                 macro_rules! pi {
                     ($b:expr) => {{
                         let mut b = $b;
@@ -814,7 +815,7 @@ macro_rules! directed_flavour {
                             // the same search object used a second and a third time
                             let first = b.search_path().map(|p| describe_path!(p));
                             let second = b.search_path().map(|p| describe_path!(p));
-                            let third = b.search().map(|n| *n.key());
+                            let third = b.search().map(|n| kout(*n.key()));
                             if first.is_none() && second.is_none() && third.is_none() {
                                 None
                             } else {
@@ -840,7 +841,7 @@ macro_rules! directed_flavour {
             dot_attr_impl!($m);
 
             fn g_index_ref(g: &Self::Graph, k: usize) -> Option<Self::Node> {
-                Some(g[&k].clone())
+                Some(g[&kin(k)].clone())
             }
             fn g_roots(g: &Self::Graph) -> Option<Vec<Self::Node>> {
                 Some(g.roots())
@@ -941,10 +942,10 @@ macro_rules! undirected_flavour {
                 u.is_orphan()
             }
             fn find_out(u: &Self::Node, k: usize) -> Option<Self::Node> {
-                u.find_adjacent(&k)
+                u.find_adjacent(&kin(k))
             }
             fn find_in(u: &Self::Node, k: usize) -> Option<Self::Node> {
-                u.find_adjacent(&k)
+                u.find_adjacent(&kin(k))
             }
             fn for_out(u: &Self::Node, f: Step<Self::Node>) {
                 for gdsl::$m::Edge(a, b, e) in u.iter() {
@@ -1036,7 +1037,7 @@ macro_rules! undirected_flavour {
                 }
             }
             fn search(root: &Self::Node, spec: &SearchSpec, cb: Cb<Self::Node>) -> SearchOut<Self::Node> {
-                let tk: Option<usize> = spec.target;
+                let tk: Option<usize> = spec.target.map(kin);
                 match spec.closure {
                     Closure::None => $m::go(root, spec, &tk, Meth::None),
                     Closure::ForEach => {
@@ -1053,7 +1054,7 @@ macro_rules! undirected_flavour {
             }
 
             fn path_info(root: &Self::Node, spec: &SearchSpec) -> Option<String> {
-                let tk: Option<usize> = spec.target;
+                let tk: Option<usize> = spec.target.map(kin);
                 macro_rules! pi {
                     ($b:expr) => {{
                         let mut b = $b;
@@ -1066,7 +1067,7 @@ macro_rules! undirected_flavour {
                             // the same search object used a second and a third time
                             let first = b.search_path().map(|p| describe_path!(p));
                             let second = b.search_path().map(|p| describe_path!(p));
-                            let third = b.search().map(|n| *n.key());
+                            let third = b.search().map(|n| kout(*n.key()));
                             if first.is_none() && second.is_none() && third.is_none() {
                                 None
                             } else {
